@@ -8,6 +8,7 @@ CONSTANTS Weights = {}
  PayFields = {}
  BoxCfgs = {}
  Kinds = {}
+ ReconfCfgs = {}
  NewCfgs = {}
  Slices = {}
  Dev = {}
